@@ -186,6 +186,17 @@ CHECKS += [
          technique="symbolic execution of Kraus operators and the default.mixed kernels on polynomial terms with sqrt atoms; z3 QF_NRA with 1e-7 tolerance"),
 ]
 
+CHECKS += [
+    dict(property_id="C20", category="proof", engine=E1,
+         text="27 measurement lists (non-commuting Pauli words, Sums/Hamiltonians with SYMBOLIC coefficients and identity offsets, repeated measurements, var incl. "
+              "var(Identity), probs, Hadamard, Hermitian, Projector, duplicate terms) on an entangling 3-wire circuit with symbolic angles go through the REAL "
+              "split_non_commuting (4 grouping strategies), split_to_single_terms, diagonalize_measurements (default / supported bases / to_eigvals) and "
+              "broadcast_expand; results of the produced tapes come from the independent matrix-route oracle, the REAL post-processing is applied, and z3 "
+              "proves equality with the direct results for ALL angles and coefficients. Rejection with the documented error is accepted, a wrong number is not.",
+         note=PROOF_NOTE + " Unsupported and listed: paths through numpy eigh (Hermitian eigvals) and typed complex buffers. Outside: sign_expand, batch_input/batch_params, sample/counts.",
+         technique="symbolic execution of measurement-splitting transforms and their post-processing on polynomial terms vs direct results; z3 QF_NRA"),
+]
+
 _NOT_BUILT = "claimed in DESIGN.md §4 but its solver-based check is not built yet in this tree"
 NOT_APPLICABLE_REASONS = {
     "C04": "equality/hash: Python hash() of concrete payloads and tolerance-based allclose relations; no exact relation a solver can decide",
